@@ -84,16 +84,29 @@ typedef struct {
 } sctx_t;
 typedef int (*sized_fn)(sctx_t *c, uint8_t *dst, size_t cap, size_t *ret);
 
+/* distinct, never inlined call sites: a report's stack tells whether the first call (capacity from
+ * the case) or the retry (capacity = the size the function reported) was running */
+static int __attribute__((noinline)) sized_first_call(sized_fn fn, sctx_t *c, uint8_t *d, size_t cap, size_t *r) {
+	int rc = fn(c, d, cap, r);
+	__asm__ volatile("" ::: "memory");
+	return rc;
+}
+static int __attribute__((noinline)) sized_second_call(sized_fn fn, sctx_t *c, uint8_t *d, size_t cap, size_t *r) {
+	int rc = fn(c, d, cap, r);
+	__asm__ volatile("" ::: "memory");
+	return rc;
+}
+
 static void run_sized(vout_t *o, sized_fn fn, sctx_t *c, size_t cap, int framed, int want_ret) {
 	ob_t b = ob_new(cap, framed);
 	size_t ret = SENT;
-	int rc = fn(c, b.p, cap, want_ret ? &ret : NULL);
+	int rc = sized_first_call(fn, c, b.p, cap, want_ret ? &ret : NULL);
 	vout_i32(o, rc); vout_u64(o, ret); vout_u8(o, (uint8_t)ob_canary(&b)); vout_blob(o, b.p, cap);
 	ob_free(&b);
 	if (rc != 0 && ret != SENT && ret != cap && ret <= BIG_R) {
 		ob_t b2 = ob_new(ret, framed);
 		size_t ret2 = SENT;
-		int rc2 = fn(c, b2.p, ret, &ret2);
+		int rc2 = sized_second_call(fn, c, b2.p, ret, &ret2);
 		vout_u8(o, 1); vout_i32(o, rc2); vout_u64(o, ret2); vout_u8(o, (uint8_t)ob_canary(&b2));
 		vout_blob(o, b2.p, ret);
 		ob_free(&b2);
